@@ -669,6 +669,13 @@ SOURCE_DOCS = [
                          '<storyID>a</storyID></roStoryDelete></mos>'),
     ('doctype-system', 'utf-8', '<?xml version="1.0"?>\n<!DOCTYPE mos SYSTEM "mos.dtd">\n<mos><messageID>9</messageID>'
                                 '<roDelete><roID>R</roID></roDelete></mos>'),
+    # text a normalisation would change (decomposed accents, compatibility characters, non-BMP, no-break space)
+    ('not-nfc', 'utf-8', '<mos><messageID>10</messageID><roStoryAppend><roID>R</roID><story><storyID>e\u0301 \u212b \u2126</storyID>'
+                         '<storySlug>\ufb01n \U0001f600\u00a0x</storySlug><p>a\u030a</p></story></roStoryAppend></mos>'),
+    # well-formed MOS messages the library does not support: the same refusal from every source
+    ('heartbeat', 'utf-8', '<mos><mosID>m</mosID><ncsID>n</ncsID><messageID>11</messageID><heartbeat><time>2020-01-01T00:00:00</time>'
+                           '</heartbeat></mos>'),
+    ('roReq', 'ascii', '<mos><messageID>13</messageID><roReq><roID>R</roID></roReq></mos>'),
     ('ascii-pretty', 'ascii', '<mos>\n  <mosID>m</mosID>\n  <messageID>7</messageID>\n  <roStoryMove>\n    <roID>R</roID>\n'
                               '    <storyID>a</storyID>\n    <storyID/>\n  </roStoryMove>\n</mos>\n'),
 ]
@@ -707,13 +714,35 @@ def sources_cell(P, A):
                 res['ea-s3'] = B.call(lambda: mt.ElementAction.from_s3('bucket', 'key'))
                 res['concrete-class-file'] = B.call(lambda: mt.EAStorySwap.from_file(path))
         B.hit()
+        # the collection readers over the same content: same message ID / class, or the same refusal
+        import mosromgr.moscollection as mcm
+        rd = {'reader-file': B.call(lambda: mcm.MosReader.from_file(path)),
+              'reader-bytes': B.call(lambda: mcm.MosReader.from_string(data))}
+        with World(parser_stub=False) as W2:
+            W2.objects['key'] = data
+            rd['reader-s3'] = B.call(lambda: mcm.MosReader.from_s3('bucket', 'key'))
         ref = res['bytes']
+        unsupported = name in ('heartbeat', 'roReq')
+        for k, o in rd.items():
+            if ref.raised:
+                if not o.raised or type(o.exc) is not type(ref.exc):
+                    sig = '%s-does-not-refuse-like-MosFile' % k
+            elif o.raised:
+                sig = '%s-raised-%s' % (k, type(o.exc).__name__)
+            elif o.result is None or o.result.message_id != ref.result.message_id or o.result.mos_type is not type(ref.result):
+                sig = '%s-differs-from-MosFile' % k
+        if sig is None and ref.raised != unsupported:
+            sig = 'bytes-raised-%s' % type(ref.exc).__name__ if ref.raised else 'unsupported-message-accepted'
         for k, o in res.items():
+            if sig is not None:
+                break
+            if ref.raised:
+                if not o.raised or type(o.exc) is not type(ref.exc):
+                    sig = '%s-does-not-refuse-like-bytes' % k
+                continue
             if o.raised:
                 sig = '%s-raised-%s' % (k, type(o.exc).__name__)
                 break
-            if ref.raised:
-                continue
             if type(o.result) is not type(ref.result):
                 sig = '%s-class-differs' % k
                 break
